@@ -31,6 +31,47 @@ CLAIMED["C11"] = dict(
           "policy are outside the claim."),
 )
 
+CLAIMED["C13"] = dict(
+    text=("Bounded model checking, differential against the definition: tw::find equals first-occurrence on every branch (needle 0,1,2,3..16 and "
+          "the >16-byte path), terminates and never panics; replace equals left-to-right non-overlapping substitution (and the insert-between-"
+          "characters rule for the empty pattern) with valid UTF-8 output; slice/len follow the character-position specification for ALL f64 "
+          "bounds (NaN, infinities, huge, negative, fractional). Bounded: hay <= 6 x needle <= 3 over all bytes; needle 16/17, hay <= 19 over {a,b}; "
+          "replace hay <= 4, from/to <= 2; slice <= 3 characters of 1-2 bytes."),
+    ref="DESIGN.md 3 (C13)",
+    note=("Trusted: Kani/CBMC/SAT; memchr-rs replaced by a scalar loop with its documented contract; the long-needle path is decided modularly "
+          "(factorisation contract + find for every anchor) in the quick tier and monolithically in the thorough tier; replace is checked with find "
+          "replaced by its specification and with a container model of ArenaString (appends into pre-allocated capacity; Vec growth is std's code "
+          "and the arena grow path is C11); to_number/trim/case mapping delegate to std and split/join is thorough-only."),
+)
+CLAIMED["C16"] = dict(
+    text=("Bounded model checking of the sequential capture kernel read_captured_stream over a reader that delivers a symbolic payload in every "
+          "chunk schedule: the result is complete with the overflow flag untouched, or the flag is set (naming this stream unless another stream "
+          "overflowed first) -- a shortened buffer never coexists with a clear flag; exactly-at-limit is not an overflow; stream codes round-trip. "
+          "This is the kernel only: thread/OS schedules, the poll loop, kill/wait and the nine policy combinations are outside what a SAT encoding reaches."),
+    ref="DESIGN.md 3 (C16)",
+    note=("Trusted: Kani/CBMC/SAT; the pipe is a Read model returning the payload in a concrete chunk schedule then 0; payload <= 4 bytes, cap <= 5; "
+          "concurrency (reader threads vs wait loop vs child exit) is NOT modelled -- Kani has no thread model."),
+)
+CLAIMED["C17"] = dict(
+    text=("Bounded model checking of the line-assembly kernel behind read_line (sys::unix::read_line_from) called two and three times over a "
+          "BufRead model that delivers the input in every chunk schedule: each call returns exactly the next line without its terminator, consumes "
+          "exactly the line and its newline (nothing after it is lost), returns the partial last line at end of input and then empty strings."),
+    ref="DESIGN.md 3 (C17)",
+    note=("Trusted: Kani/CBMC/SAT; std's StdinLock/BufReader implements the BufRead contract the model states (fill_buf = unread part of the "
+          "buffered chunk, next read when empty; consume advances); memchr scalar stub; container model for the 8 KiB line buffer (appends into "
+          "pre-allocated capacity); input <= 4 bytes over {newline,x,y} (5 and all byte values thorough); lines > 8 KiB, EINTR and invalid UTF-8 outside."),
+)
+CLAIMED["C18"] = dict(
+    text=("Bounded model checking of the real limit check for ALL cap and count values: first_exceeded_limit reports a limit iff some metric "
+          "is strictly above its cap, the first one in the staged order, with the real observed/limit numbers, including the derived summary and "
+          "liveness bounds (saturating arithmetic); the resolver passes DEFAULT_CAPS; on the over-limit path it leaves no optimisation plan, emits "
+          "exactly one warning and no error and never starts the first expensive pass, while within limits the passes do start."),
+    ref="DESIGN.md 3 (C18)",
+    note=("Trusted: Kani/CBMC/SAT; fact tables modelled by their lengths plus 0..2 real FunctionInfo records; contract stubs for count_program / "
+          "build_program_with_counts in the skip-path harness; that an over-limit program then EXECUTES with unchanged results is the C03 "
+          "differential (not applicable) and is not claimed."),
+)
+
 NOT_APPLICABLE = {
     "C01": "tree-walk evaluator (Runtime::eval_expr/exec_stmt) cannot be symbolically executed by Kani/CBMC within this machine's memory (7 probe variants, DESIGN.md 4); every clause of the property is evaluator behaviour",
     "C03": "differential between two evaluator runs fed by the whole analysis pipeline on symbolic programs; neither half can be encoded (DESIGN.md 4)",
@@ -41,7 +82,7 @@ NOT_APPLICABLE = {
 }
 
 PENDING = {pid: "check not built yet in this session (planned, see DESIGN.md 3); not claimed until it is"
-           for pid in ["C02", "C04", "C07", "C09", "C10", "C13", "C15", "C16", "C17", "C18"]}
+           for pid in ["C02", "C04", "C07", "C09", "C10", "C15"]}
 
 
 def build():
